@@ -257,6 +257,29 @@ func checkLeafProducers(c *core.Ctx, rule string) {
 		c.Check(len(col.Problems) == 0, rule, name, "emits the non-nil ToBytes() of every element of "+leaf.over+", in slice order, delimiter-joined, without modifying anything", fn.Pos(),
 			fmt.Sprintf("range %s; append %s iff non-nil; joinBody", col.Over, col.Elem), strings.Join(col.Problems, "; "))
 		c.Check(col.Over == leaf.over, rule, name, "iterates its own items", fn.Pos(), col.Over, "iterates "+col.Over+", expected "+leaf.over)
+		// no way around the loop: a return that does not pass the collector loop is taken only when there are no items (an
+		// "is it empty?" shortcut that looks at some kinds of item only drops the others with their content)
+		{
+			heads := an.LoopHeads(fn)
+			ps, _ := an.EnumPaths(fn, 512)
+			around := ""
+			for _, p := range ps {
+				if p.Return == nil {
+					continue
+				}
+				through := false
+				for _, b := range p.Blocks {
+					if heads[b] {
+						through = true
+					}
+				}
+				if !through && an.PathFeasible(p, an.Atom{L: "0", Rel: "<", R: "len(" + leaf.over + ")"}) {
+					around = p.CondString()
+				}
+			}
+			c.Check(around == "", rule, name, "every result is collected from the items (no return that bypasses the loop while there are items)", fn.Pos(), "all returns pass the collector loop or have len(items) == 0",
+				name+" returns without looking at its items under ["+around+"]: whatever that test does not see (a repeating group inside a component, say) vanishes from the wire with its count field")
+		}
 		if leaf.typ == "Group" {
 			// prefix: exactly the count field NewKeyValue(noTag, NewInt(len(items))).ToBytes(); nothing when there are no entries
 			okP := len(col.Prefix) == 1 && an.Render(col.Prefix[0]) == "fix.NewKeyValue(g.noTag, fix.NewInt(len(g.items))).ToBytes()"
